@@ -35,7 +35,7 @@ def trial(sid, d, pid, checks=None):
         res['demo_rc_changed'] = sh(f'DECIMALFP_FORCE_PYTHON_IMPL=1 PYTHONPATH={REPO}/src /venv/bin/python {d}/demo.py >/dev/null 2>&1; echo $?').stdout.strip()
         res['demo_tail'] = dm.stdout.strip()[-400:]
         for p in (checks or REL[pid]):
-            c = sh(f'cd {VERIF} && QUANTITY_REPO={REPO} ./check {p} --tier quick 2>&1')
+            c = sh(f'cd {VERIF} && VERIF_EVIDENCE_DIR=/tmp/seed_trials_evidence QUANTITY_REPO={REPO} ./check {p} --tier quick 2>&1')
             lines = [l for l in c.stdout.strip().splitlines() if not l.startswith('WARNING')]
             viol = [l for l in lines if l.startswith('VIOLATION')]
             summ = lines[-1] if lines else ''
